@@ -364,3 +364,4 @@ def run(S):
     shared.permutation_word(S)
     shared.key_order(S)
     shared.value_words(S)
+    shared.names(S, ('yakushima::get', 'yakushima::put', 'yakushima::remove'))
